@@ -52,10 +52,10 @@ Matrix<4,4, double> epsic::disjoint::get_crosscovariance (unsigned ilag)
   if (ilag == 0)
     return get_covariance();
   
-  Matrix<4,4,double> Acov = A->get_crosscovariance(ilag);
+  Matrix<4,4,double> Acov = sample::get_crosscovariance (A, ilag, sample_size);
   Acov *= A_fraction * A_fraction;
   
-  Matrix<4,4,double> Bcov = B->get_crosscovariance(ilag);
+  Matrix<4,4,double> Bcov = sample::get_crosscovariance (B, ilag, sample_size);
   Bcov *= (1-A_fraction) * (1-A_fraction);
   
   return Acov + Bcov;
